@@ -444,16 +444,10 @@ def run(ctx):
 OP_NAMES = {'op', 'operation', 'mop', 'moment_or_operation', 'moment_or_op'}
 
 
-def _kind_side(expr, env):
+def _kind_side(expr, env, items=frozenset(OP_NAMES)):
     """Classify a key-set expression as (kind, side): kind M/C/Q, side 'op' (the item being placed) or 'mo' (what is already there)."""
     if isinstance(expr, ast.Name):
-        if expr.id in env:
-            return env[expr.id]
-        nm = expr.id
-        if nm.startswith('batch_'):
-            k = 'M' if 'measurement' in nm else ('C' if 'control' in nm else ('Q' if 'qubit' in nm else None))
-            return (k, 'mo') if k else None
-        return None
+        return env.get(expr.id)
     src = ast.unparse(expr)
     k = None
     if 'measurement_key_objs' in src:
@@ -465,28 +459,46 @@ def _kind_side(expr, env):
     if k is None:
         return None
     names = {n.id for n in ast.walk(expr) if isinstance(n, ast.Name)}
-    side = 'op' if names & OP_NAMES and 'moment' not in (names - OP_NAMES) and '_moments' not in src else 'mo'
+    side = 'op' if names & items and 'moment' not in (names - items) and '_moments' not in src else 'mo'
     return (k, side)
 
 
 def _conflict_pairs(fn):
+    # the item being placed: a parameter with an operation-like name, or the variable of a loop over a parameter
+    params = {a.arg for a in fn.args.args + fn.args.kwonlyargs}
+    items = set(OP_NAMES & params)
+    for n in ast.walk(fn):
+        if isinstance(n, ast.For) and isinstance(n.target, ast.Name) and isinstance(n.iter, ast.Name) and n.iter.id in params:
+            items.add(n.target.id)
+    items = frozenset(items)
     env = {}
     for n in ast.walk(fn):
         if isinstance(n, ast.Assign) and len(n.targets) == 1 and isinstance(n.targets[0], ast.Name):
-            ks = _kind_side(n.value, {})
+            ks = _kind_side(n.value, {}, items)
             if ks:
                 env[n.targets[0].id] = ks
+    # accumulators of what is already present: sets that are grown with a key set of the item
+    for n in ast.walk(fn):
+        acc = val = None
+        if isinstance(n, ast.Call) and isinstance(n.func, ast.Attribute) and n.func.attr in ('update', 'add') and isinstance(n.func.value, ast.Name) and n.args:
+            acc, val = n.func.value.id, n.args[0]
+        elif isinstance(n, ast.AugAssign) and isinstance(n.op, ast.BitOr) and isinstance(n.target, ast.Name):
+            acc, val = n.target.id, n.value
+        if acc is not None and acc not in env:
+            ks = _kind_side(val, env, items)
+            if ks and ks[1] == 'op':
+                env[acc] = (ks[0], 'mo')
     pairs = set()
     for n in ast.walk(fn):
         if isinstance(n, ast.Call) and isinstance(n.func, ast.Attribute) and n.func.attr == 'isdisjoint' and n.args:
-            a, b = _kind_side(n.func.value, env), _kind_side(n.args[0], env)
+            a, b = _kind_side(n.func.value, env, items), _kind_side(n.args[0], env, items)
             if a and b and a[1] != b[1]:
                 pairs.add((a[0], b[0]) if a[1] == 'op' else (b[0], a[0]))
         if isinstance(n, ast.Call) and isinstance(n.func, ast.Attribute) and n.func.attr == 'operates_on':
             pairs.add(('Q', 'Q'))
-        # [X_indices.get(key, -1) for key in mop_Y]
+        # [X_indices.get(key, -1) for key in mop_Y]   (the index dictionaries are parameters of the function)
         if isinstance(n, (ast.ListComp, ast.GeneratorExp)) and len(n.generators) == 1:
-            it = _kind_side(n.generators[0].iter, env)
+            it = _kind_side(n.generators[0].iter, env, items)
             e = n.elt
             if it and isinstance(e, ast.Call) and isinstance(e.func, ast.Attribute) and e.func.attr == 'get' and isinstance(e.func.value, ast.Name):
                 idx = e.func.value.id
